@@ -43,6 +43,11 @@ Judge(e) ==
     [] n = "SameFunction"     -> Fails({<<"result_consistent", ConsistentCurve(AsC(e.d))>>,
                                      <<"same_function", ConsistentCurve(AsC(e.d)) =>
                                          ObservedEquals(AsC(e.c), e.dv, CommonBreaks(e.c.U, e.d.U), Deg(e.c.U) + Deg(e.d.U))>>})
+    \* the result d of an operation that keeps the function, observed on the sample points of the OLD curve's spans
+    \* only (d may have knots TLC cannot hold, e.g. 1e-10 beside an old knot): deg+1 interior points per old span
+    \* identify every polynomial piece of d that contains them
+    [] n = "SameOnSpans"      -> Fails({<<"samples_cover_every_old_span", SamplesCover(e.dv, Knots(e.c.U), e.act.deg)>>,
+                                     <<"same_values", \A i \in DOMAIN e.dv : e.dv[i][2] = Eval(AsC(e.c), e.dv[i][1])>>})
     [] n = "EvalObs"          -> Fails({<<"value_is_definition", ConsistentCurve(AsC(e.c)) =>
                                        \A i \in DOMAIN e.dv : e.dv[i][2] = Eval(AsC(e.c), e.dv[i][1])>>})
     [] n = "BasisObs"         -> LET U == e.act.kv W == e.act.weights j == e.act.j u == e.act.u
